@@ -69,3 +69,12 @@ Theorem C07_failed_mark_durable : forall sn ch pl st,
   pl_status pl = Some st -> canary_failed_rs st = true.
 Proof. exact failed_mark_durable. Qed.
 Print Assumptions C07_failed_mark_durable.
+
+(** ... and the record itself stays: the replica set of spec.template - during an unfinished rollback the failed canary -
+    is never deleted by the reconcile, however long ago it failed and whatever it reports *)
+Theorem C07_record_never_deleted : forall sn pl e u,
+  eds_sync sn = Ok pl -> es_obj sn = Some e ->
+  last_such (rs_up_to_date e) (rs_of_eds e (es_rss sn)) = Some u ->
+  ~ In (r_name u) (deletes_of (ep_writes pl)).
+Proof. exact uptodate_never_deleted. Qed.
+Print Assumptions C07_record_never_deleted.
